@@ -131,6 +131,26 @@ def handleSobs (c : Line) (l : Line) : IO Unit := do
       let ts := terms.map fun (t, rm) => (t, rm.getD i false)
       if Spec.Expr.denote conn ts probe then '1' else '0'
     IO.println s!"spec {l.id} den=ok:{String.ofList bits}"
+  else if kind == "fields" then
+    -- fields=K<hexkey>:N | K<hexkey>:O<hexorder> | K<hexkey>:F<n>, …   (structure of the projection)
+    let n := (c.nat? "n").getD ((c.bytes? "text").getD []).length
+    let items := (c.getD "fields").splitOn ","
+    let badOrder := items.any fun it =>
+      match it.splitOn ":" with
+      | [_, o] =>
+        (match o.toList with
+         | 'O' :: hex => (match Bytes.ofHexChars hex with
+            | some name => !Spec.Expr.acceptableOrder name
+            | none => false)
+         | _ => false)
+      | _ => false
+    let v := l.getD "p"
+    let res :=
+      if badOrder then
+        (if v == "ok" then "REJECT(order)" else judge ((c.bytes? "text").getD []).length none v)
+      else (if v == "ok" then v else "ACCEPT(fields)")
+    let _ := n
+    IO.println s!"spec {l.id} n={l.getD "n"} p={res}"
   else if kind == "sep" then
     -- two bare words separated by white space (ASCII or Unicode): two terms / fields / list members
     let w1 := (c.bytes? "w1").getD []
